@@ -422,6 +422,17 @@ def rand_body(rng, n=None, good_only=True):
             recs.append(good_record(rng, nonmt=False))
         else:
             recs.append(bad_record(rng)[0])
+    if recs and rng.random() < 0.1:
+        # records that belong together carry related values (Tx/Rx connect speed, min/max bps, tunnel/session id)
+        v = extreme(rng, 32)
+        w = rng.choice([v, v, (v + 1) & 0xffffffff, extreme(rng, 32)])
+        a, b, k = rng.choice([(24, 38, 4), (16, 17, 4), (9, 14, 2), (15, 24, 4)])
+        pair = [avp_rec(a, be(v & (256 ** k - 1), k)), avp_rec(b, be(w & (256 ** k - 1), k))]
+        if rng.random() < 0.3:
+            pair.reverse()
+        recs[0] = avp_rec(0, be(rng.choice([12, 9, 10, 7]), 2))
+        pos = rng.randrange(1, len(recs) + 1)
+        recs[pos:pos] = pair
     return recs
 
 
